@@ -308,6 +308,55 @@ def run(n=300, seed=1, tag="convert_check", exhaustive_docs=True, show=3):
     return res
 
 
+# ---------------------------------------------------------------- for the property checks
+FRAGMENT_PROPS = {            # property -> (module, theorem-name prefix)
+    "C02": ("Props.C02F", "C02F_"),
+    "C05": ("Props.C05F", "C05F_"),
+    "C03": ("Props.C03F", "C03F_"),
+}
+
+
+def theorem_names(path, prefix):
+    txt = re.sub(r"\(\*.*?\*\)", "", open(path).read(), flags=re.S)
+    return re.findall(r"^\s*(?:Theorem|Lemma|Example|Corollary)\s+(%s\w+)" % re.escape(prefix), txt, re.M)
+
+
+def convert_obligations(ctx, prop, n=None, exhaustive_docs=None, k3=True):
+    """Called by py/props/c02.py, c05.py, c03.py.  Records on ctx:
+      * build + forbidden-token scan + Print Assumptions of every theorem/example of Props/<prop>F.v
+        (the schema quantifier of <prop> closed on the converter fragment),
+      * (k3=True) the tie of the model to the real converter: exact equality of type spaces on every
+        generated fragment document (the same run serves the three properties: pass k3=False in two of
+        them if the checks run together; each uses its own tag, so they may also run concurrently).
+    Returns the K3 result dict (or None)."""
+    import time
+    module, prefix = FRAGMENT_PROPS[prop]
+    path = os.path.join(vlib.COQ, "theories", *module.split(".")) + ".v"
+    thms = theorem_names(path, prefix)
+    if not thms:
+        ctx.oblige("%s present" % path, False, "fragment theorem file missing or without %s theorems" % prefix)
+        return None
+    saved = ctx.prop
+    ctx.prop = prop + "F"
+    try:
+        vlib.standard_coq_obligations(ctx, module, thms, vlib.STD_AXIOMS)
+    finally:
+        ctx.prop = saved
+    if not k3:
+        return None
+    quick = getattr(ctx, "tier", "quick") == "quick"
+    res = run(n=n if n is not None else (60 if quick else 400), seed=ctx.seed,
+              tag="%s_convert_%s" % (prop.lower(), "q" if quick else "t"),
+              exhaustive_docs=(not quick) if exhaustive_docs is None else exhaustive_docs)
+    ctx.oblige("correspondence K3: Convert.convert_doc = real type space (exact term equality) on %d fragment "
+               "documents" % res["in_frag"], not res["mismatches"] and res["in_frag"] > 0,
+               json.dumps(res["mismatches"][:2], default=str)[:1500])
+    ctx.coverage["convert_fragment_documents"] = res["in_frag"]
+    ctx.coverage["convert_outside_fragment"] = res["out"]
+    ctx.evaluations += res["in_frag"]
+    return res
+
+
 def main():
     ap = argparse.ArgumentParser()
     ap.add_argument("--n", type=int, default=300)
